@@ -18,6 +18,8 @@ CONFIGS = {
     'full': {'args': ['--workspace', '--features', FEATURES_FULL], 'only': None},
     # tonic alone with default features: the cfg(not(feature=..)) twins of gated items
     'plain': {'args': ['-p', 'tonic'], 'only': 'tonic'},
+    # tonic-build as the `codegen` crate (which writes the checked-in generated sources) builds it: without `transport`
+    'build_notransport': {'args': ['-p', 'tonic-build', '--no-default-features', '--features', 'prost,cleanup-markdown'], 'only': 'tonic_build'},
 }
 
 
